@@ -100,6 +100,24 @@ def a1_a2_expand_yield(ctx) -> None:
                 label_clean = False
                 ctx.violation("A1", st, f"`{label_p}` (the label of the class being expanded) is re-bound to `{norm(val) if val is not None else '?'}`: "
                               "every later rule of the same call is recorded under that other label")
+    # A1c: a rule is dropped as "returned the same class" only when its *own* parent is its only child
+    # (a factory may hand back a rule for another class whose child is the class being expanded)
+    for n in walk_local(f):
+        if not isinstance(n, ast.Continue):
+            continue
+        for e, pol in C.flatten_guards(C.guards(f, n)):
+            if not (pol and isinstance(e, ast.Compare) and len(e.ops) == 1 and isinstance(e.ops[0], ast.Eq)):
+                continue
+            sides = [norm(D.expanded(f, e.left)), norm(D.expanded(f, e.comparators[0]))]
+            kid = f"{rule_var}.children[0]"
+            if kid not in sides:
+                continue
+            other = sides[1 - sides.index(kid)]
+            if other == f"{rule_var}.comb_class":
+                ctx.ok("A1", "a rule is skipped as trivial only when its own parent equals its only child")
+            else:
+                ctx.violation("A1", e, f"a rule is skipped when `{other}` equals its only child; the rule's own parent is `{rule_var}.comb_class`: a rule handed back for "
+                              "another class whose child is the class being expanded is thrown away (and a rule from the class to itself is kept)")
     for y in ys:
         v = y.value
         if not (isinstance(v, ast.Tuple) and len(v.elts) == 3):
@@ -120,8 +138,16 @@ def a1_a2_expand_yield(ctx) -> None:
                     cands.append((st, val))
         else:
             cands.append((y, s_e))
-        for site, val in cands:
+        # a conditional expression is two definitions, each under its arm's condition
+        flat: List[Tuple[ast.AST, ast.AST]] = []
+        while cands:
+            site, val = cands.pop()
             val = D.strip_casts(val)
+            if isinstance(val, ast.IfExp):
+                cands.extend([(val.body, val.body), (val.orelse, val.orelse)])
+            else:
+                flat.append((site, val))
+        for site, val in flat:
             if isinstance(val, ast.Call) and norm(val.func).endswith("classdb.get_label") and len(val.args) == 1 \
                     and norm(val.args[0]) == f"{rule_var}.comb_class":
                 ctx.ok("A1", f"start label = get_label({rule_var}.comb_class)")
